@@ -51,6 +51,13 @@ CLAIMED = {
  'C12': dict(text="Lean theorems (28): a model of the FPCore core subset (fuel evaluator where '!' scopes the rounding context over exactly its sub-expression) and of the repaired compiler for blocks of assignments, nested/sequential with followed by statements, if/else, return: compile_sound (the compiled expression evaluates to what the FPy block returns, every operation under the context of its enclosing with and no other), with_scope (continuation outside the inner annotation, with a legacy counterexample), context-property table round trip. Tie: generated programs compiled by the real FPCoreCompiler, evaluated by titanfp (trusted reference) and re-read with Function.from_fpcore vs the interpreter; an evaluator-independent annotation-scope walk over the emitted core; the Lean FPCore evaluator vs titanfp; the compile model vs the real compiler.",
              note=TB + "; PARTIAL: loops, if followed by statements (bundling), tuples/lists and the reader are covered by the harness only; titanfp is a trusted reference (its own deviations are counted, not judged). Known finding C12-looptarget.",
              tech="Lean 4 proof (compile soundness for the loop-free subset) + differential runs against titanfp and the re-read function", ref="5/C12"),
+
+ 'C10': dict(text="Lean theorems (30) — the lowering rewrites are number theorems over the rounding model: a float rounding equals the fixed-point rounding at the emitted position (normal, subnormal and clamped branches; value, sign and flags) for every deterministic bounded/unbounded float context and probed policy; rescaling a fixed-point rounding by a power of two commutes with rounding for every operand incl. NaN/inf/zeros and WRAP; bounded rounding = unbounded rounding + the emitted comparison + the source's own overflow arm, and a single probe determines that arm; what a context makes of NaN/inf/zero is a constant; shedding rules are invisible exactly when unreachable; identity roundings change nothing; the documented chain end to end; counterexamples for the repaired defects. Tie: each real strategy alone and every chain prefix applied to `with C: y = round(x)` for generated contexts of all families, original vs lowered on the real interpreter at every boundary operand, emitted constants checked against the theorem instances, lowered programs run on the Lean evaluator.",
+             note=TB + "; early_check is proved for thresholds at a binade boundary only; lowered programs that use logb cannot be run on the Lean evaluator (counted). Known finding F29 (via insert_round).",
+             tech="Lean 4 proof (rounding identities) + original-vs-lowered differential at format boundaries", ref="5/C10"),
+ 'C18': dict(text="Lean theorems (11) over a model of the Python boundary on top of the Lean evaluator: the frame property of the WHOLE evaluator (cells that existed before a call and are not reachable from fresh arguments are never written; returned references are fresh) proved by induction over all evaluator functions, hence args_untouched and result_fresh for any aliased caller values; history_independent for every operation sequence (calls, transformed copies, caller mutating results) and every module under the current copy-captured/rebuild-result policy; schedule_independent for every interleaving of the atomic steps lookup|compile|insert|run of N calls over the shared cache; legacy counterexamples for the repaired defects F7/F8. Tie: deep snapshots incl. container identity around real calls, random histories in one process (other contexts, stochastic contexts, transforms, raising calls, mutated results, re-entrant callbacks), 4-8 threads with a 1 microsecond switch interval vs sequential results, and the model's prediction of successive results.",
+             note=TB + "; PARTIAL: GIL preemption inside C extensions, gmpy2's thread-local MPFR context, writes made before an exception and free variables of callees are not modelled — the threaded runs are sampling.",
+             tech="Lean 4 proof (frame property + induction over histories and schedules) + history/thread differential runs", ref="5/C18"),
 }
 NA_REASON = "check not built yet (work in progress; see DESIGN.md section 8 build order)"
 
